@@ -1031,17 +1031,20 @@ impl Call {
             }
         }
 
-        for (argument, parameter) in std::iter::zip(arguments, extern_signature.parameters.iter()) {
+        let mut parameters = extern_signature.parameters.iter();
+        for argument in arguments {
+            // Arguments beyond the signature's parameters are still passed, hence read.
+            let mutable = parameters.next().is_some_and(|parameter| parameter.mutable);
             match argument {
                 UnresolvedCallArgument::MemoryReference(memory_reference) => {
                     reads.insert(memory_reference.name.clone());
-                    if parameter.mutable {
+                    if mutable {
                         writes.insert(memory_reference.name.clone());
                     }
                 }
                 UnresolvedCallArgument::Identifier(identifier) => {
                     reads.insert(identifier.clone());
-                    if parameter.mutable {
+                    if mutable {
                         writes.insert(identifier.clone());
                     }
                 }
